@@ -46,6 +46,8 @@ CHECKS = {
                 note="Trusted: lxml. Documented type map accepted (numbers come back as int/Decimal, a date as datetime at midnight). inf/nan and fractional durations are outside the domain."),
     "C14": dict(tech=ENUM, ref="5/C14", text="Every identifier up to the length bound over an alphabet rich in XPath- and XML-significant characters, accepted by the respective setter, stored together with decoys (suffix/prefix/doubled/one character changed/quote swapped) and looked up through every name-taking entry point of its kind (table, style, bookmark and its start/end, reference marks single and range, frame, draw page, variable decl/set, user field, note id, manifest path, link, user-defined, named range): no exception, the object found carries exactly that identifier.",
                 note="Trusted: lxml. Sections have no lookup by name in the API. Setters that strip the name (table, named range) are queried with the stripped identifier."),
+    "C13": dict(tech=MC, ref="5/C13", text="Every insert_style(family x name in {None, A, B, odfdo_auto_7} x {common, automatic, default}) inside its documented domain, alone (with save + reload) on 5 documents, every ordered pair (representative first op, any second op), and merge_styles_from between every pair of documents; an independent lxml walk over the four style containers of both parts checks the container required by family/kind, uniqueness of (tag, family, name), the returned name, that get_style finds the very element inserted, non-colliding generated names, union / other-wins / source-unchanged for merges.",
+                note="Trusted: lxml. Domain as documented (a name or automatic or default; default for style:style families; master pages, page layouts, font faces named). A caller-made clash of the same family+name between an automatic and a common style is outside the domain."),
 }
 
 NOT_YET = {}
